@@ -241,6 +241,11 @@ def _build():
 
 
 FINDINGS = _build() + [
+    dict(id="C14-sqlalchemy-unknown-column-keywords-copied-into-entry", property="C14",
+         pattern=dict(check="wellformed", parser={"in": ["sqlalchemy", "sqlalchemy_hybrid", "sqlalchemy_table"]}, source="sqlalchemy_layout", clause="entry_keys", entry="param", key={"in": ["index", "unique"]}),
+         what="the SQLAlchemy parsers copy Column keywords they do not interpret (index=, unique=) into the parameter entry as extra keys (the JSON-schema parser does the same with unknown schema keywords)",
+         site="cdd/sqlalchemy/utils/parse_utils.py:column_call_to_param (`dict(map(lambda k: (k.arg, get_value(k.value)), call.keywords))`)",
+         example="owner_id = Column(Integer, unique=True, index=True) -> params['owner_id'] has the keys 'unique' and 'index'"),
     dict(id="C14-function-without-docstring-has-no-doc-key", property="C14",
          pattern=dict(check="wellformed", parser={"in": ["function", "function_infer"]}, source="layout", clause="doc_missing"),
          what="function.parse of a function without a docstring returns an interface without the 'doc' key (the no-docstring branch builds the dict by hand); pinned by test_from_function, so not repaired",
